@@ -654,6 +654,42 @@ theorem C16_counterexample_old_step_guard :
 
 example : (refreshDecision exObj).toOption = some true := by decide
 
+/-! ## the STRT / STOP / STEP keyword arguments (`writeObjK`) -/
+
+/-- without STRT= / STOP= / STEP= the general call is the call the other theorems of this file are about -/
+theorem C16_kwargs_default (cfg : WriteCfg) (sd : Option F64) (o : WObj) : writeObjK {} cfg sd o = writeObj cfg sd o := by
+  simp only [writeObjK, writeObj, prepareK_default]
+
+/-- **The keyword arguments are ignored when no refresh is decided** (index as read and STOP equal to its last value):
+whatever is passed as STRT= / STOP= / STEP=, the lines written and the object afterwards are those of the plain call. -/
+theorem C16_kwargs_ignored_without_refresh (k : SssArgs) (cfg : WriteCfg) (sd : Option F64) (o : WObj)
+    (h : refreshDecision o = .ok false) : writeObjK k cfg sd o = writeObj cfg sd o := by
+  simp only [writeObjK, writeObj, prepareK_no_refresh k sd o h]
+
+/-- when the refresh is decided on a non-empty index, an argument that was given is stored as it is and one that was not
+is computed from the index exactly as in the plain call -/
+theorem C16_kwargs_values (k : SssArgs) (sd : Option F64) (x : F64) (xs : List F64) (s e p : PVal)
+    (h : sssValuesK k sd (some (x :: xs)) = some (s, e, p)) :
+    s = ov k.strt (.str (fmt5 x)) ∧ e = ov k.stop (.str (fmt5 (xs.getLastD x))) ∧
+    (k.step ≠ .none → p = k.step) ∧
+    (k.step = .none → ∃ s' e', sssValues sd (some (x :: xs)) = some (s', e', p)) := by
+  unfold sssValuesK at h
+  cases hk : k.step with
+  | none =>
+    simp only [hk] at h
+    cases xs with
+    | nil => simp at h; obtain ⟨rfl, rfl, rfl⟩ := h; simp [sssValues]
+    | cons y ys =>
+      cases sd with
+      | none => simp at h
+      | some d => simp at h; obtain ⟨rfl, rfl, rfl⟩ := h; simp [sssValues]
+  | str t => simp only [hk] at h; simp at h; obtain ⟨rfl, rfl, rfl⟩ := h; simp
+  | num a t => simp only [hk] at h; simp at h; obtain ⟨rfl, rfl, rfl⟩ := h; simp
+
+/-- without a usable index every argument keeps what it was given (the IndexError is swallowed) -/
+theorem C16_kwargs_no_index (k : SssArgs) (sd : Option F64) :
+    sssValuesK k sd none = some (k.strt, k.stop, k.step) ∧ sssValuesK k sd (some []) = some (k.strt, k.stop, k.step) := ⟨rfl, rfl⟩
+
 end Lasio.Wo
 
 #print axioms Lasio.Wo.C16_closed_form
@@ -666,3 +702,7 @@ end Lasio.Wo
 #print axioms Lasio.Wo.C16_units
 #print axioms Lasio.Wo.C16_truth
 #print axioms Lasio.Wo.C16_no_refresh
+#print axioms Lasio.Wo.C16_kwargs_default
+#print axioms Lasio.Wo.C16_kwargs_ignored_without_refresh
+#print axioms Lasio.Wo.C16_kwargs_values
+#print axioms Lasio.Wo.C16_kwargs_no_index
